@@ -299,11 +299,54 @@ def d5(chk, prog):
         tb.cell(oks, dict(column="spread", got=repr(sp)[:160], want="biweight_midvariance(column, initial=its location) per bin"))
         tb.cell(set(out) == {"log2", "depth", "spread"}, dict(keys=sorted(out)))
     tb.done("the reference's log2 / spread / depth are not the stated robust estimators over the sample matrix")
+    class MatTag(tuple):
+        """a tagged sample matrix: any subscript gives a differently tagged (hence wrong) operand"""
+
+        def abs_getitem(self, it, k):
+            return MatTag(("SUBSET",) + tuple(self))
+
+        def abs_len(self):
+            return 3
+
     fc = prog.fn(f"{REF}.combine_probes")
-    ok = any(isinstance(n, ast.Call) and norm(n.func) == "summarize_info" and [norm(a) for a in n.args] == ["all_logr", "all_depths"] for n in own_nodes(fc.node)) and \
-        any(isinstance(n, ast.Call) and norm(n.func) == "ref_df.assign" and any(k.arg is None and norm(k.value) == "stats_all" for k in n.keywords) for n in own_nodes(fc.node))
-    chk.decide(ok, "estimator-binding", "combine_probes assigns summarize_info(all_logr, all_depths) onto the bins", f"{fc.qn}::assign stats", fc.loc(),
-               "combine_probes no longer stores summarize_info(all_logr, all_depths) as the reference columns")
+    tb2 = Table(chk, "estimator-binding", "combine_probes: target and antitarget blocks loaded with their own flags, stacked in one order for bins, log2 matrix and depth matrix, summarised once onto the bins", fc.loc(), fc.qn)
+    for with_anti, anti_empty in ((False, False), (True, False), (True, True)):
+        W.reset()
+        model = Model()
+        blocks, summ = [], []
+
+        def block(it, fnames, fa, hap, par, sexes, skip_low, gc, edge, rmask, blocks=blocks):
+            kind = "T" if fnames == ["t1.cnn", "t2.cnn"] else "A"
+            blocks.append((kind, fa, hap, par, sexes, skip_low, gc, edge, rmask))
+            n = 2 if kind == "T" else (0 if anti_empty else 2)
+            df = DF({"chromosome": Vec(["chr1"] * n, aligned=True), "start": Vec([10 * i for i in range(n)], aligned=True), "end": Vec([10 * i + 5 for i in range(n)], aligned=True),
+                     "gene": Vec([f"{kind}{i}" for i in range(n)], aligned=True)}, n)
+            df.exact = True
+            return (df, MatTag(("LOGR", kind)), MatTag(("DEPTH", kind)))
+        model.prims[f"{REF}.load_sample_block"] = block
+        model.ext["np.hstack"] = lambda it, parts: MatTag(("HSTACK",) + tuple(tuple(p) for p in parts))
+
+        def summarize(it, logr, depths, summ=summ):
+            summ.append((logr, depths))
+            n = 2 + (2 if with_anti and not anti_empty else 0)
+            return {"log2": Vec([Term.sym(f"L{i}") for i in range(n)]), "spread": Vec([Term.sym(f"S{i}", 0, INF) for i in range(n)]), "depth": Vec([Term.sym(f"D{i}", 0, INF) for i in range(n)])}
+        model.prims[f"{REF}.summarize_info"] = summarize
+        model.method_prims["sort"] = lambda it, g, *a, **k: None
+        model.method_prims["sort_columns"] = lambda it, g, *a, **k: None
+        it = Interp(prog, model)
+        out = tb2.guard(lambda: it.run(fc.qn, [["t1.cnn", "t2.cnn"], ["a1.cnn", "a2.cnn"] if with_anti else [], "hg.fa", True, "grch38", {"s": True}, "GC", "EDGE", "RMASK", False, 4]),
+                        f"antitargets={with_anti} empty={anti_empty}")
+        if out is None:
+            continue
+        want_blocks = [("T", "hg.fa", True, "grch38", {"s": True}, True, "GC", "EDGE", False)] + ([("A", "hg.fa", True, "grch38", {"s": True}, False, "GC", False, "RMASK")] if with_anti else [])
+        want_summ = [(("HSTACK", ("LOGR", "T"), ("LOGR", "A")), ("HSTACK", ("DEPTH", "T"), ("DEPTH", "A")))] if with_anti else [(("LOGR", "T"), ("DEPTH", "T"))]
+        genes = ["T0", "T1"] + (["A0", "A1"] if with_anti and not anti_empty else [])
+        ok = blocks == want_blocks and summ == want_summ and isinstance(out, GA) and list(out.data.cols["gene"].v) == genes
+        ok = ok and all(same(out.data.cols[c].v[i], Term.sym(f"{p}{i}")) for c, p in (("log2", "L"), ("spread", "S"), ("depth", "D")) for i in range(len(genes)))
+        ok = ok and out.meta.get("sample_id") == "reference"
+        tb2.cell(ok, dict(antitargets=with_anti, antitarget_table_empty=anti_empty, blocks=[b[0:1] + b[5:] for b in blocks], summarised=repr(summ)[:160],
+                          bins=list(out.data.cols["gene"].v) if isinstance(out, GA) else repr(out)[:60]))
+    tb2.done("combine_probes does not summarise the stacked target + antitarget matrices once, in the bins' order, onto the reference columns")
 
 
 def d6(chk, prog):
@@ -447,6 +490,9 @@ MUTANTS = [
     dict(name="seeded C05d: flat profile computed before the antitargets are added", file=_R, old='    ref_probes = bed2probes(targets)\n    if antitargets:\n        ref_probes.add(bed2probes(antitargets))\n    # Set sex chromosomes by "reference" sex\n    ref_probes["log2"] = ref_probes.expect_flat_log2(is_haploid_x_reference, diploid_parx_genome)\n',
          new='    ref_probes = bed2probes(targets)\n    # Set sex chromosomes by "reference" sex\n    ref_probes["log2"] = ref_probes.expect_flat_log2(is_haploid_x_reference, diploid_parx_genome)\n    if antitargets:\n        ref_probes.add(bed2probes(antitargets))\n'),
     dict(name="seeded C15d: PAR-Y of a female reference left at 0", file="cnvlib/cnary.py", old="            idx = (self.chr_y_filter()).values\n        cvg[idx] = -1.0", new="            idx = (self.chr_y_filter(diploid_parx_genome)).values\n        cvg[idx] = -1.0"),
+    dict(name="antitarget depths stacked before the target depths", file=_R, old="        all_depths = np.hstack([all_depths, anti_depths])", new="        all_depths = np.hstack([anti_depths, all_depths])"),
+    dict(name="summary of the target block only", file=_R, old="    stats_all = summarize_info(all_logr, all_depths)\n", new="    stats_all = summarize_info(all_logr[:, :len(ref_df)], all_depths[:, :len(ref_df)])\n"),
+    dict(name="twin: combine_probes summary unpacked explicitly", expect="silent", file=_R, old="    stats_all = summarize_info(all_logr, all_depths)\n    ref_df = ref_df.assign(**stats_all)\n", new="    summary = summarize_info(all_logr, all_depths)\n    ref_df = ref_df.assign(log2=summary[\"log2\"], depth=summary[\"depth\"], spread=summary[\"spread\"])\n"),
     dict(name="twin: first array renamed throughout load_sample_block", edits=[(_R, "cnarr1", "first_arr", True)], expect="silent"),
     dict(name="twin: masks computed in another order, flat profile first", file=_R, old="    is_chr_x = cnarr1.chr_x_filter(diploid_parx_genome)\n    is_chr_y = cnarr1.chr_y_filter(diploid_parx_genome)\n    ref_flat_logr = cnarr1.expect_flat_log2(is_haploid_x, diploid_parx_genome)\n",
          new="    ref_flat_logr = cnarr1.expect_flat_log2(is_haploid_x, diploid_parx_genome)\n    x_mask = cnarr1.chr_x_filter(diploid_parx_genome)\n    is_chr_y = cnarr1.chr_y_filter(diploid_parx_genome)\n    is_chr_x = x_mask\n", expect="silent"),
